@@ -17,6 +17,10 @@ def main():
         desc = json.load(fh)
     mod = importlib.import_module(f"vf.checks.{prop.lower()}")
     acc = Acc(prop)
+    which = getattr(mod, "CONTRACTS", None)
+    if which:
+        from vf.monitors import contracts
+        contracts.install(which)
     use_reach = desc.get("reach", True)
     if use_reach:
         reach.start(env.pkg_dir())
@@ -30,6 +34,12 @@ def main():
         acc.inconc("harness-exception: " + traceback.format_exc()[-1500:])
     if use_reach:
         reach.stop()
+    if which:
+        for name, cnt in contracts.EVALS.items():
+            acc.count("contract-evaluations:" + name, cnt)
+        for v in contracts.VIOLATIONS[:20]:
+            acc.fail("ambient-contract", "contract:" + v["contract"].split(":")[0], "ambient-contract", [],
+                     "contract-broken", v["detail"], {"kind": "contract", "contract": v["contract"]})
     out = acc.to_json()
     out["reach"] = reach.counts()
     out["wall_s"] = time.time() - t0
